@@ -14,7 +14,9 @@ import (
 // hubSrc is a contract that holds NEO and GAS and reacts to payments: its onNEP17Payment callback can throw,
 // forward / return what it received, pull more tokens from the payer (using the payer's Global witness) or vote
 // with the NEO it holds; its methods let it spend, vote, deposit to / withdraw from the Notary contract, and wrap
-// a transfer whose recipient throws into a try block (the transfer is undone, the transaction still HALTs).
+// a transfer whose recipient throws into a try block (an exception in a payment callback cannot be caught: the
+// transaction FAULTs) or a call of a contract that pays and then throws (caught: the payment and its Transfer
+// event are undone, the transaction still HALTs).
 // GAS claimed for the contract's NEO reaches it through the same callback (from = null, data = null).
 const hubSrc = `package hub
 
@@ -75,6 +77,24 @@ func TryPay(tok, from, to interop.Hash160, amount int, data any) {
 func tryPay(tok, from, to interop.Hash160, amount int, data any) {
 	defer func() { _ = recover() }()
 	contract.Call(tok, "transfer", contract.All, from, to, amount, data)
+}
+
+// PayThenThrow performs a transfer (which succeeds and emits its event) and then throws.
+func PayThenThrow(tok, from, to interop.Hash160, amount int) {
+	contract.Call(tok, "transfer", contract.All, from, to, amount, nil)
+	panic("after payment")
+}
+
+// TryThrow calls PayThenThrow of contract h inside a try block: the transfer made by the callee and its Transfer
+// event must be undone, the transaction goes on and HALTs.
+func TryThrow(h, tok, from, to interop.Hash160, amount int) {
+	tryThrow(h, tok, from, to, amount)
+	storage.Put(storage.GetContext(), []byte("tries"), amount)
+}
+
+func tryThrow(h, tok, from, to interop.Hash160, amount int) {
+	defer func() { _ = recover() }()
+	contract.Call(h, "payThenThrow", contract.All, tok, from, to, amount)
 }
 
 func Version() int { return variant }
